@@ -15,6 +15,8 @@ variable {K : Type} [Field K] [LinearOrder K] [IsStrictOrderedRing K]
 rotations, flips, coil compression, Gaussian weighting): positively homogeneous of degree 1 -/
 structure ExtHom (X : Ext K) : Prop where
   lin : ∀ (l : Lin) (m : Meta) (q : K) (v : Val K), 0 < q → X.lin l m (scaleV q v) = scaleV q (X.lin l m v)
+  crop : ∀ (c : Bool) (sd : Option (List Nat)) (q : K) (v : Val K), 0 < q →
+    X.crop c sd (scaleV q v) = scaleV q (X.crop c sd v)
 
 variable (sqrt : K → K)
 local notation "S" => fieldOps sqrt
@@ -62,9 +64,23 @@ theorem safeDiv_hom (y x : Val K) (p q : K) (hp : 0 < p) :
     · simp
     · field_simp
 
-theorem sumAbs_hom (x : Val K) (q : K) (hq : 0 < q) :
-    evalOp S X m .sumAbs [scaleV q x] = scaleV q (evalOp S X m .sumAbs [x]) := by
-  simp only [evalOp, scaleV, Val.map, modulusL_scale sqrt hs q hq, sumBlocks_scale]
+theorem sumSlices_hom (x : Val K) (q : K) :
+    evalOp S X m .sumSlices [scaleV q x] = scaleV q (evalOp S X m .sumSlices [x]) := by
+  simp only [evalOp, scaleV, Val.map, sumBlocks_scale]
+
+theorem copy_hom (x : Val K) (q : K) :
+    evalOp S X m .copy [scaleV q x] = scaleV q (evalOp S X m .copy [x]) := rfl
+
+theorem divUnsafe_hom (y x : Val K) (p q : K) (hp : 0 < p) :
+    evalOp S X m .divUnsafe [scaleV p y, scaleV q x] = scaleV (q / p) (evalOp S X m .divUnsafe [y, x]) := by
+  obtain ⟨nc, ns, cplx, data⟩ := x
+  cases cplx <;>
+  · simp only [evalOp, scaleV, Val.map, mapIdx, mapIdxAux_map, map_mapIdxAux, Val.stride, bget_scale, Bool.false_eq_true, ↓reduceIte]
+    congr 1
+    apply mapIdxAux_congr
+    intro i a
+    simp only [fo_div]
+    field_simp
 
 theorem threshold_hom (p : ThrPred) (hp : p.homogeneous = true) (x : Val K) (q : K) (hq : 0 < q) :
     evalOp S X m (.threshold p) [scaleV q x] = evalOp S X m (.threshold p) [x] := by
@@ -140,7 +156,7 @@ theorem evalOp_hom (op : Op) (ds : List Int) (vs : List (Val K)) (d : Int)
     match ds, vs, hlen, h with
     | [x], [v], _, h =>
       simp only [opDeg, Except.ok.injEq] at h; subst h
-      simp only [List.zipWith, evalOp]; exact hX.lin l m _ v (pos _)
+      cases l <;> simp only [List.zipWith, evalOp] <;> first | exact hX.lin _ m _ v (pos _) | exact hX.crop _ _ _ v (pos _)
   | applyMask =>
     match ds, vs, hlen, h with
     | [a, x], [mk, v], _, h =>
@@ -157,11 +173,21 @@ theorem evalOp_hom (op : Op) (ds : List Int) (vs : List (Val K)) (d : Int)
       · rename_i ha; simp only [Except.ok.injEq] at h; subst h; subst ha
         simp only [List.zipWith, zpow_zero, scaleV_one]; exact applyPadding_hom hs hX c hc m mk v _
       · exact absurd h (by simp)
-  | sumAbs =>
+  | sumSlices =>
     match ds, vs, hlen, h with
     | [x], [v], _, h =>
       simp only [opDeg, Except.ok.injEq] at h; subst h
-      simp only [List.zipWith]; exact sumAbs_hom hs hX c hc m v _ (pos _)
+      simp only [List.zipWith]; exact sumSlices_hom hs hX c hc m v _
+  | copy =>
+    match ds, vs, hlen, h with
+    | [x], [v], _, h =>
+      simp only [opDeg, Except.ok.injEq] at h; subst h
+      simp only [List.zipWith]; exact copy_hom hs hX c hc m v _
+  | divUnsafe =>
+    match ds, vs, hlen, h with
+    | [y, x], [vy, vx], _, h =>
+      simp only [opDeg, Except.ok.injEq] at h; subst h
+      simp only [List.zipWith, zpow_sub₀ hc.ne']; exact divUnsafe_hom hs hX c hc m vy vx _ _ (pos _)
   | threshold p =>
     match ds, vs, hlen, h with
     | [x], [v], _, h =>
@@ -267,6 +293,7 @@ theorem safeDiv_applyMask_comm (X : Ext K) (m : Meta) (sf mk k : Val K) :
 /-- identity externals (what the exact correspondence runs use for the FFT-based operators) -/
 def idExt : Ext K where
   lin := fun _ _ v => v
+  crop := fun _ _ v => v
   mask := fun _ _ _ _ _ len => List.replicate (len / 2) true
   split := fun input _ _ ms => (ms.headD []).map fun b => b && input
   eps := 0
@@ -274,7 +301,7 @@ def idExt : Ext K where
   padCoilsTo := 0
   espirit := fun v => v
 
-theorem idExt_hom : ExtHom (idExt (K := K)) := ⟨fun _ _ _ _ _ => rfl⟩
+theorem idExt_hom : ExtHom (idExt (K := K)) := ⟨fun _ _ _ _ _ => rfl, fun _ _ _ _ _ => rfl⟩
 theorem zeroSqrt_hom : SqrtHom (K := K) (fun _ => 0) := fun _ _ _ => by simp
 
 /-! ## stores -/
